@@ -36,6 +36,7 @@ POSITIONS = [
     ('async_function', "async def taint_async(argument_value):\n    local_value = argument_value\n    return local_value, {T}"),
     ('conditional_expression', "taint_cond = {T} if taint_cond_flag else None" if False else "taint_cond = None if [] else {T}"),
     ('subscript_index', "taint_table = {{{T}: 1}}[{T}]"),
+    ('global_declared_in_function', "def taint_global_user(argument_value):\n    global {T}\n    local_value = argument_value\n    return local_value, {T}"),
     ('del_then_use', "def taint_deleter(argument_value):\n    local_value = argument_value\n    del local_value\n    return {T}"),
 ]
 STAR = [('relative_star', 'from . import *'), ('relative_star_up', 'from .. import *'), ('relative_sibling_star', 'from .sibling import *'),
